@@ -886,6 +886,16 @@ fn start_client_app(client: Client, addr: std::net::SocketAddr, rec: Rec, scn: A
         for j in joins {
             let _ = j.await;
         }
+        // streams pushed by the server: wait until each has ended at the client (or the horizon)
+        if scn.server_mode.push_streams > 0 {
+            loop {
+                let ended = rec.0.lock().unwrap().app.iter().filter(|a| a.ep == CLIENT && matches!(&a.ev, App::Eof { stream, .. } | App::ReadError { stream, .. } if stream & 0x3 == 0x3)).count();
+                if ended >= scn.server_mode.push_streams || now_us() >= deadline_us {
+                    break;
+                }
+                time::delay(Duration::from_millis(10)).await;
+            }
+        }
         // linger so that the peer's application observes everything, then close and linger again
         // so that the closing behaviour is observable
         time::delay(Duration::from_millis(scn.linger_ms)).await;
